@@ -188,6 +188,7 @@ class World:
         c['pfail'] = t.pick([0, 10, 40, 80], 'pfail') if faulty and t.draw(2, 'f_cfail') else 0
         c['burst'] = (faulty and t.draw(3, 'f_burst') == 2)
         c['p3d'] = t.pick([0, 10, 50], 'p3d') if faulty and t.draw(3, 'f_3d000') == 2 else 0
+        c['poutage'] = t.pick([0, 20, 60], 'poutage') if faulty and t.draw(3, 'f_outage') == 2 else 0
         c['pslowc'] = t.pick([0, 5, 30], 'pslowc') if faulty and t.draw(2, 'f_slowc') else 0
         c['pslowd'] = t.pick([0, 5, 30], 'pslowd') if faulty and t.draw(2, 'f_slowd') else 0
         c['pdiscard'] = t.pick([0, 10, 50], 'pdiscard') if faulty and t.draw(2, 'f_discard') else 0
@@ -223,6 +224,9 @@ class World:
         self.fail_streak = collections.Counter()   # db -> consecutive failures
         self.abort_ok = set()        # ids of exceptions that legitimately abort waiters
         self.pending_acq = {}        # client -> (db, vtime, step)
+        self.acq_serial = {}         # client -> serial number of its current acquire
+        self.acq_count = 0
+        self.acq_fails = {}          # client -> consecutive connect failures seen while waiting
         self.sleeping = 0            # clients asleep (before acquire / holding / between rounds)
         self.ops_in_flight = 0       # operator coroutines running
         self.cancelled_clients = set()
@@ -276,6 +280,11 @@ class World:
             for d in range(c['ndb']):
                 if t.chance(c['p3d'], 100, 'db_gone'):
                     self.gone_dbs.add(d)
+        self.down_dbs = set()
+        if c['poutage']:
+            for d in range(c['ndb']):
+                if t.chance(c['poutage'], 100, 'db_down'):
+                    self.down_dbs.add(d)
         ops = []
         for _ in range(c['nprune']):
             ops.append(('prune', t.draw(maxstart + 30, 'prune_at') * GRID, t.draw(c['ndb'], 'prune_db')))
@@ -293,6 +302,7 @@ class World:
         self.bound = 3 * c['gc'] + 200 * tick + 50 * (self.hmax + self.cmax + self.dmax) + 5.0
         self.q_since = None
         self.abandon = False
+        self.report_window = 2 * self.cmax + 20 * tick + 0.2
 
         loop.after_step = self.after_step
         tasks = self.client_tasks = []
@@ -317,8 +327,10 @@ class World:
                     if self.abandon:
                         self.probes['abandoned_stuck_run'] += 1
                         break
-                    if all(tk.done() for tk in tasks) and not self.pending_ops and not self.ops_in_flight:
+                    if all(tk.done() for tk in tasks) and not self.pending_ops:
                         if self.drained():
+                            if self.ops_in_flight:
+                                self.probes['prune_still_blocked_at_end'] += 1
                             break
                     if loop.steps > max_steps:
                         raise HarnessError(f'step cap exceeded at vtime={loop.time()}')
@@ -376,6 +388,8 @@ class World:
         if not healed:
             if dbi in self.gone_dbs:
                 fail = '3D000'
+            elif dbi in self.down_dbs:
+                fail = 'outage'
             elif self.burst and self.burst[0] <= now < self.burst[1] and self.burst[2] in (dbi, c['ndb']):
                 fail = 'burst'
             elif c['pfail'] and t.chance(c['pfail'], 100, 'connect_fail'):
@@ -397,12 +411,46 @@ class World:
             self.fail_streak[dbname] += 1
             if fail == '3D000' or self.fail_streak[dbname] > c['retries']:
                 self.abort_ok.add(id(e))
+            if self.liveness:
+                # L4 bookkeeping: failures seen by each waiting request itself
+                owed = []
+                for i, (d, _, _) in self.pending_acq.items():
+                    if d == dbname:
+                        n = self.acq_fails.get(i, 0) + 1
+                        self.acq_fails[i] = n
+                        if n == c['retries'] + 1 or (fail == '3D000' and n <= c['retries'] + 1):
+                            owed.append(i)
+                if owed:
+                    loop.call_later(self.report_window, self.check_reported, dbname, owed,
+                                    [self.acq_serial[i] for i in owed], loop.time(), loop.iterations)
             raise e
         self.fail_streak[dbname] = 0
+        if self.acq_fails:
+            for i, (d, _, _) in self.pending_acq.items():
+                if d == dbname:
+                    self.acq_fails.pop(i, None)
         conn = FakeConn(cid, dbname)
         self.open.add(conn)
         self.ev('connect_done', dbi)
         return conn
+
+    def check_reported(self, dbname, owed, serials, t_fail, it_fail):
+        """L4: at t_fail the listed acquires had each, since they started
+        waiting, seen more consecutive connect failures on their database
+        than the retry budget (and no success): by now (a window of simulated
+        time *and* of loop iterations later, so that a stalled process is not
+        blamed) they must have been resolved, with the error or a connection."""
+        still = [i for i, sn in zip(owed, serials)
+                 if i in self.pending_acq and self.acq_serial.get(i) == sn]
+        if still and self.loop.iterations - it_fail < 60:
+            self.loop.call_later(self.cfg['min_conn_time'], self.check_reported,
+                                 dbname, owed, serials, t_fail, it_fail)
+            return
+        if still:
+            self.violate('C16', 'L4', 'exhausted-retries-not-reported',
+                         f'connect to {dbname!r} failed beyond the retry budget at vtime={t_fail:.3f}, '
+                         f'but {len(still)} acquire(s) waiting on it then are still blocked '
+                         f'{self.report_window:.2f}s later; blocks={self.describe_blocks()}')
 
     @staticmethod
     def _resolve(fut):
@@ -467,6 +515,9 @@ class World:
             if self.pending_acq:
                 self.contended = True
             self.pending_acq[i] = (dbname, loop.time(), loop.steps)
+            self.acq_count += 1
+            self.acq_serial[i] = self.acq_count
+            self.acq_fails.pop(i, None)
             try:
                 conn = await pool.acquire(dbname)
             except asyncio.CancelledError:
@@ -618,14 +669,18 @@ class World:
         elif self.q_since is not None:
             self.q_since = None
 
-    def env_quiescent(self):
-        return (not self.n_connecting and not self.closing and not self.lent
-                and not self.sleeping and not self.pending_ops and not self.ops_in_flight
-                and self.loop.time() >= self.t_heal
-                and not self.loop.count_unstarted())
+    def env_passive(self):
+        """The environment owes the pool nothing more: faults have stopped,
+        every holder has released, no client is about to arrive or release,
+        no operator event is left.  Connects / disconnects still in flight
+        are the pool's own doing and complete within cmax / dmax, far below
+        the bound.  (An operator coroutine still in flight is blocked on the
+        pool itself, so it does not count either.)"""
+        return (not self.lent and not self.sleeping and not self.pending_ops
+                and self.loop.time() >= self.t_heal)
 
     def check_progress(self):
-        if not self.env_quiescent():
+        if not self.env_passive():
             self.q_since = None
             return
         now = self.loop.time()
@@ -643,7 +698,8 @@ class World:
                 self.abandon = True
             return
         if now - self.q_since > self.bound:
-            self.report_stuck('starved')
+            busy = self.n_connecting or self.closing or self.loop.count_unstarted()
+            self.report_stuck('livelock' if busy else 'starved')
 
     def report_stuck(self, how):
         """An acquire() is pending, the environment offers nothing more
@@ -690,6 +746,8 @@ class World:
                 parts.append('idle-with-waiters')
             if any(b.suppressed and b.count_waiters() for b in blocks):
                 parts.append('suppressed-waiters')
+            if self.n_connecting or self.closing:
+                parts.append('churning')
             if len(blocks) <= 1:
                 parts.append('single-block')
             if not waiting:
